@@ -571,6 +571,9 @@ func (k *SimKernel) serveOne(c *simConn, m []byte) {
 	} else {
 		req.Raw = append([]byte{}, body...)
 	}
+	if req.ParseOK {
+		k.fillOIDs(req)
+	}
 	if k.OnRequest != nil {
 		k.OnRequest(req)
 	}
@@ -623,6 +626,35 @@ func (k *SimKernel) oidOf(kind SimKind, attrs []SimAttr) (SimOID, []byte, bool) 
 		oid.HasSEID = true
 	}
 	return oid, ida.Data, true
+}
+
+// fillOIDs: the (seid, id) pairs a request names (also for requests that are then failed).
+func (k *SimKernel) fillOIDs(req *SimRequest) {
+	switch req.Cmd {
+	case gtp5gnl.CMD_GET_REPORT:
+		if oid, _, ok := k.oidOf(SimURR, req.Attrs); ok {
+			req.OIDs = []SimOID{oid}
+		}
+		return
+	case gtp5gnl.CMD_GET_MULTI_REPORTS:
+		for _, a := range req.Attrs {
+			if a.Type == gtp5gnl.URR_MULTI_SEID_URRID && a.Nested {
+				if oid, _, ok := k.oidOf(SimURR, a.Sub); ok {
+					req.OIDs = append(req.OIDs, oid)
+				}
+			}
+		}
+		return
+	}
+	for kind := SimKind(0); kind < simNKinds; kind++ {
+		ki := simKinds[kind]
+		if req.Cmd == ki.add || req.Cmd == ki.del || req.Cmd == ki.get {
+			if oid, _, ok := k.oidOf(kind, req.Attrs); ok {
+				req.OIDs = []SimOID{oid}
+			}
+			return
+		}
+	}
 }
 
 func (k *SimKernel) ruleReply(r *SimRule) []SimAttr {
@@ -684,16 +716,14 @@ func (k *SimKernel) process(req *SimRequest) ([]byte, syscall.Errno) {
 		if !ok {
 			return nil, syscall.EINVAL
 		}
-		req.OIDs = []SimOID{oid}
+		_ = oid
 		return k.genlMsg(req.NlType, 0, req.Seq, req.Cmd, k.reportsFor(req, SimOnQuery, req.OIDs)), 0
 	case gtp5gnl.CMD_GET_MULTI_REPORTS:
 		for _, a := range req.Attrs {
 			if a.Type == gtp5gnl.URR_MULTI_SEID_URRID && a.Nested {
-				oid, _, ok := k.oidOf(SimURR, a.Sub)
-				if !ok {
+				if _, _, ok := k.oidOf(SimURR, a.Sub); !ok {
 					return nil, syscall.EINVAL
 				}
-				req.OIDs = append(req.OIDs, oid)
 			}
 		}
 		return k.genlMsg(req.NlType, 0, req.Seq, req.Cmd, k.reportsFor(req, SimOnQuery, req.OIDs)), 0
@@ -706,7 +736,6 @@ func (k *SimKernel) process(req *SimRequest) ([]byte, syscall.Errno) {
 			if !ok {
 				return nil, syscall.EINVAL
 			}
-			req.OIDs = []SimOID{oid}
 			var rest []SimAttr
 			for _, a := range req.Attrs {
 				if a.Type == gtp5gnl.LINK || a.Type == simIDAttr || a.Type == ki.seidAttr {
@@ -751,7 +780,6 @@ func (k *SimKernel) process(req *SimRequest) ([]byte, syscall.Errno) {
 			if !ok {
 				return nil, syscall.EINVAL
 			}
-			req.OIDs = []SimOID{oid}
 			if _, exists := k.rules[kind][oid]; !exists && !k.opts.Lenient {
 				return nil, syscall.ENOENT
 			}
@@ -776,7 +804,6 @@ func (k *SimKernel) process(req *SimRequest) ([]byte, syscall.Errno) {
 			if !ok {
 				return nil, syscall.EINVAL
 			}
-			req.OIDs = []SimOID{oid}
 			r, exists := k.rules[kind][oid]
 			if !exists {
 				return nil, syscall.ENOENT
